@@ -110,7 +110,7 @@ pub fn run(opts: &Opts, corpus: &[Case], reg: &BTreeMap<usize, &Entry>, sink: &m
         sink.groups_run += 1;
         sink.cases_run += cases.len() as u64;
         match opts.prop.as_str() {
-            "C01" | "C02" | "C04" | "C08" | "C09" | "C10" | "C07" => {
+            "C01" | "C02" | "C04" | "C08" | "C09" | "C10" | "C07" | "C12" => {
                 for c in cases {
                     single(opts, c, reg[&c.id], sink)
                 }
@@ -216,7 +216,7 @@ fn single(opts: &Opts, case: &Case, entry: &Entry, sink: &mut Sink) {
         };
         match (&r.result, &real) {
             (_, Real::Panic(m)) => {
-                if matches!(prop, "C01" | "C04" | "C07" | "C08") {
+                if matches!(prop, "C01" | "C04" | "C07" | "C08" | "C12") {
                     viol(sink, "panic", format!("{}", if r.accepted() { "Ok" } else { "Err" }), format!("panic: {m}"));
                 }
             }
@@ -249,7 +249,7 @@ fn single(opts: &Opts, case: &Case, entry: &Entry, sink: &mut Sink) {
                         }
                     }
                 }
-                if matches!(prop, "C01" | "C04" | "C07" | "C08") {
+                if matches!(prop, "C01" | "C04" | "C07" | "C08" | "C12") {
                     if let Some(re) = v.end {
                         if re != *end {
                             viol(sink, "end", format!("consumed {end} bytes"), format!("consumed {re} bytes: {s}"));
@@ -306,12 +306,12 @@ fn single(opts: &Opts, case: &Case, entry: &Entry, sink: &mut Sink) {
                 }
             }
             (Ok((end, val)), Real::Err { pos, spec }) => {
-                if matches!(prop, "C01" | "C04" | "C07" | "C08") {
+                if matches!(prop, "C01" | "C04" | "C07" | "C08" | "C12") {
                     viol(sink, "accept", format!("Ok, {} bytes, {}", end, val.canon_top(true, false)), format!("Err at {pos}: {spec}"));
                 }
             }
             (Err(()), Real::Ok(s)) => {
-                if matches!(prop, "C01" | "C04" | "C07" | "C08") {
+                if matches!(prop, "C01" | "C04" | "C07" | "C08" | "C12") {
                     viol(sink, "accept", "Err".into(), format!("Ok: {s}"));
                 }
             }
